@@ -25,7 +25,7 @@ CHECKS = {
             "scope: any instance without filter, positive durations with filters", "DESIGN 4 C06"),
     "C07": ("exploration", "seeded simulation: filters evaluated at every reached dispatcher state on full and sub-list inputs against reference criteria",
             "A filter's result depends on the reached dispatcher state; every built-in filter, seeded compositions and available_operations() are evaluated at every state of sampled histories on the ready list and on sub-lists, compared exactly with the documented criterion, plus bounded-liveness completion by available operations only.",
-            "criteria as worded in the statement; dominated filter with zero-duration input only structurally", "DESIGN 4 C07"),
+            "criteria as worded in the statement; dominated filter with zero-duration input only structurally, plus available_operations() == installed filter applied directly", "DESIGN 4 C07"),
     "C09": ("fault_enumeration", "systematic fault-point enumeration inside seeded histories: every prefix x every invalid-request kind, full-state snapshot comparison and twin run",
             "Atomicity of rejected requests must hold at every point of a history and for every kind of invalid request; inside each seeded history (dispatcher with the full observer zoo, or an environment) every prefix length x every invalid-request kind is injected, the complete public state is snapshotted before and after, and the end state is compared with a twin that never saw the faults.",
             "any exception type is a rejection; the private query cache is not observable state; histories are sampled, fault points inside them are enumerated", "DESIGN 4 C09"),
